@@ -91,10 +91,32 @@ pub fn corpus(thorough: bool) -> Vec<Program> {
             Module { name: "o.oal".into(), stmts: vec![let_("c", E::Prim(Prim::Bool)), let_("c2", E::Prim(Prim::Str))] },
         ],
     });
+    out.push(large_program(if thorough { 1500 } else { 900 }));
     out
 }
 
+/// A module large enough to overflow any plausible fixed-size table of the pipeline (memo
+/// table, scope pool, interner): `n` declarations that each look a name up twice, then an
+/// implicit (content-addressed) component that is defined after all of them.
+pub fn large_program(n: usize) -> Program {
+    let mut stmts = vec![let_("base", obj(vec![prop("b", E::Prim(Prim::Num))]))];
+    for i in 0..n {
+        stmts.push(let_(
+            &format!("t{i}"),
+            E::Op(Op::Join, vec![var("base"), obj(vec![prop(&format!("p{i}"), E::Prim(Prim::Str))])]),
+        ));
+    }
+    stmts.push(let_("tree", E::Rec("x".into(), Box::new(obj(vec![prop("kids", arr(var("x"))), prop("first", var("t0")), prop("last", var(&format!("t{}", n - 1)))])))));
+    stmts.push(Stmt::Res(rel(uri_lit(&["tree"]), vec![xfer(Method::Get, content(var("tree")))])));
+    stmts.push(Stmt::Res(rel(uri_lit(&["list"]), vec![xfer(Method::Get, content(arr(var("tree"))))])));
+    single(stmts)
+}
+
+/// Number of large programs at the end of the corpus.
+const LARGE: usize = 1;
+
 fn run_under(files: &BTreeMap<String, String>, script: Vec<usize>) -> (String, Vec<tape::ChoicePoint>) {
+    heartbeat();
     tape::set_tape(script);
     let out = match pipeline::run(files, "main.oal") {
         Run::Doc(d, _) => d,
@@ -111,6 +133,13 @@ fn run_under(files: &BTreeMap<String, String>, script: Vec<usize>) -> (String, V
 /// Returns (executions, choice points met on the canonical run, Err(description) on a
 /// difference).
 pub fn explore_tapes(files: &BTreeMap<String, String>, bound: usize) -> (u64, usize, Result<String, String>) {
+    explore_tapes_capped(files, bound, usize::MAX)
+}
+
+/// The same, trying at most `cap` alternative orders per choice point (the first ones:
+/// reversal, then transpositions from the front) and at most the last `cap` choice points
+/// plus the first `cap` ones when there are more than 4 * cap of them.
+pub fn explore_tapes_capped(files: &BTreeMap<String, String>, bound: usize, cap: usize) -> (u64, usize, Result<String, String>) {
     let (base, log0) = run_under(files, vec![]);
     let mut execs = 1u64;
     let mut stack: Vec<(Vec<usize>, usize)> = vec![(vec![], 0)];
@@ -126,8 +155,9 @@ pub fn explore_tapes(files: &BTreeMap<String, String>, bound: usize) -> (u64, us
                 execs,
                 log0.len(),
                 Err(format!(
-                    "tape {prefix:?} at choice points {:?} changes the output",
-                    log.iter().map(|c| (c.site.clone(), c.entries, c.chosen)).collect::<Vec<_>>()
+                    "the tape that deviates from the canonical order at (choice point, order) {:?}, i.e. at (site, entries, order) {:?}, changes the output",
+                    prefix.iter().enumerate().filter(|(_, k)| **k != 0).collect::<Vec<_>>(),
+                    log.iter().filter(|c| c.chosen != 0).map(|c| (c.site.clone(), c.entries, c.chosen)).collect::<Vec<_>>()
                 )),
             );
         }
@@ -136,7 +166,11 @@ pub fn explore_tapes(files: &BTreeMap<String, String>, bound: usize) -> (u64, us
         }
         // Branch on every choice point after the scripted prefix.
         for i in prefix.len()..log.len() {
-            for alt in 1..tape::orders(log[i].entries) {
+            if cap != usize::MAX && log.len() > 4 * cap && i >= cap && i + cap < log.len() && (i - cap) % (log.len() / (2 * cap)).max(1) != 0 {
+                continue;
+            }
+            heartbeat();
+            for alt in 1..tape::orders(log[i].entries).min(cap.saturating_add(1)) {
                 let mut next = prefix.clone();
                 next.resize(i, 0);
                 next.push(alt);
@@ -187,9 +221,147 @@ fn cli_runs(texts: &[(String, String)], n: usize) -> Result<(), String> {
     res
 }
 
+// ---------------------------------------------------------------------------
+// oal-cli histories: the bytes found in the target after a successful run depend on the
+// sources alone, not on what was compiled to that target before or on file times.
+
+const HIST_OPS: [&str; 5] = ["compile", "edit main", "edit import", "edit base", "delete target"];
+
+fn hist_ops(len: usize, mut k: u64) -> Vec<&'static str> {
+    let mut v = Vec::with_capacity(len);
+    for _ in 0..len {
+        v.push(HIST_OPS[(k % HIST_OPS.len() as u64) as usize]);
+        k /= HIST_OPS.len() as u64;
+    }
+    v
+}
+
+fn hist_source(which: usize, variant: bool) -> (&'static str, String) {
+    match which {
+        0 => ("main.oal", format!(
+            "use \"defs.oal\" as d;\nlet tree = rec x {{ 'kids [x], 'item d.item }};\nres /{} on get -> <tree>;\nres /items on get -> <[d.item]>;\n",
+            if variant { "forest" } else { "tree" }
+        )),
+        1 => ("defs.oal", format!("let item = {{ '{} str, 'id int }};\n", if variant { "title" } else { "name" })),
+        _ => ("base.yaml", format!(
+            "openapi: 3.0.3\ninfo:\n  title: {}\n  version: '1'\npaths: {{}}\n",
+            if variant { "Second" } else { "First" }
+        )),
+    }
+}
+
+fn set_mtime(path: &str, tick: u64) {
+    let t = std::time::UNIX_EPOCH + std::time::Duration::from_secs(1_700_000_000 + 10 * tick);
+    let f = std::fs::File::options().write(true).open(path).expect("harness: open for set_modified");
+    f.set_modified(t).expect("harness: set_modified");
+}
+
+fn run_cli_in(dir: &str) -> (Option<i32>, Vec<u8>) {
+    let cli = std::env::var("OAL_CLI").unwrap_or_else(|_| "/verif/.build/repo/debug/oal-cli".into());
+    let st = std::process::Command::new(&cli)
+        .args(["-m", "main.oal", "-t", "out.yaml", "-b", "base.yaml"])
+        .current_dir(dir)
+        .stderr(std::process::Stdio::null())
+        .stdout(std::process::Stdio::null())
+        .status()
+        .unwrap_or_else(|e| panic!("harness: cannot run oal-cli: {e}"));
+    (st.code(), std::fs::read(format!("{dir}/out.yaml")).unwrap_or_default())
+}
+
+fn judge_cli_history(ops: &[&'static str], sink: Option<&mut Sink>) -> Outcome {
+    let dir = format!("/var/tmp/oalmc-c06h-{}-{}", std::process::id(), hash_of(&ops.to_vec()));
+    let _ = std::fs::remove_dir_all(&dir);
+    let _ = std::fs::remove_dir_all(format!("{dir}-saved"));
+    std::fs::create_dir_all(&dir).expect("harness: scratch directory");
+    // A logical clock decides every modification time, so that the same history always
+    // presents the same time stamps to the subject.
+    let mut tick = 0u64;
+    let mut variant = [false; 3];
+    let write = |d: &str, which: usize, variant: bool, tick: u64| {
+        let (name, text) = hist_source(which, variant);
+        let path = format!("{d}/{name}");
+        std::fs::write(&path, text).expect("harness: write source");
+        set_mtime(&path, tick);
+    };
+    for w in 0..3 {
+        tick += 1;
+        write(&dir, w, false, tick);
+    }
+    let mut processes = 0u64;
+    let mut verdict: Result<(), String> = Ok(());
+    let mut all: Vec<&str> = ops.to_vec();
+    all.push("compile");
+    for (step, op) in all.iter().enumerate() {
+        tick += 1;
+        match *op {
+            "compile" => {
+                let target = format!("{dir}/out.yaml");
+                let before = std::fs::metadata(&target).ok().and_then(|m| m.modified().ok());
+                let (code, bytes) = run_cli_in(&dir);
+                processes += 1;
+                let after = std::fs::metadata(&target).ok().and_then(|m| m.modified().ok());
+                if after.is_some() && after != before {
+                    set_mtime(&target, tick);
+                }
+                // the same sources at the same location, compiled where nothing was compiled
+                // before: the history directory steps aside for the duration of that run
+                let saved = format!("{dir}-saved");
+                std::fs::rename(&dir, &saved).expect("harness: set the history aside");
+                std::fs::create_dir_all(&dir).expect("harness: fresh directory");
+                for w in 0..3 {
+                    write(&dir, w, variant[w], w as u64 + 1);
+                }
+                let (fcode, fbytes) = run_cli_in(&dir);
+                std::fs::remove_dir_all(&dir).expect("harness: remove the fresh directory");
+                std::fs::rename(&saved, &dir).expect("harness: restore the history");
+                processes += 1;
+                if code != fcode || bytes != fbytes {
+                    verdict = Err(format!(
+                        "after {:?} (step {step}) the target holds {} bytes (exit {code:?}), the same sources compiled at the same location without that history give {} bytes (exit {fcode:?})",
+                        &all[..=step], bytes.len(), fbytes.len()
+                    ));
+                    break;
+                }
+                if code != Some(0) || bytes.is_empty() {
+                    verdict = Err(format!("compilation of valid sources failed at step {step}: exit {code:?}"));
+                    break;
+                }
+            }
+            "delete target" => {
+                let _ = std::fs::remove_file(format!("{dir}/out.yaml"));
+            }
+            edit => {
+                let w = match edit {
+                    "edit main" => 0,
+                    "edit import" => 1,
+                    _ => 2,
+                };
+                variant[w] = !variant[w];
+                write(&dir, w, variant[w], tick);
+            }
+        }
+    }
+    let _ = std::fs::remove_dir_all(&dir);
+    if let Some(s) = sink {
+        s.count("cli_processes", processes);
+        s.count("executions", processes);
+    }
+    match verdict {
+        Ok(()) => Outcome::ok("target equals the fresh compilation after every compile", Some(hash_of(&(variant, ops.iter().filter(|o| **o == "compile").count())))),
+        Err(why) => Outcome::bad(
+            "history-dependent-target",
+            "the target written by oal-cli depends on earlier runs or file times".into(),
+            why,
+            json!({"kind":"cli-history","ops": ops}),
+        ),
+    }
+}
+
 fn judge_tapes(texts: &[(String, String)], sink: Option<&mut Sink>) -> Outcome {
     let files = pipeline::files_of(texts);
-    let (execs, points, res) = explore_tapes(&files, 2);
+    // The large programs: 1 deviation, 3 alternative orders at a spread of choice points.
+    let big = texts.iter().map(|(_, t)| t.len()).sum::<usize>() > 20_000;
+    let (execs, points, res) = if big { explore_tapes_capped(&files, 1, 3) } else { explore_tapes(&files, 2) };
     if let Some(s) = sink {
         s.count("executions", execs);
         s.count("choice_points", points as u64);
@@ -259,6 +431,10 @@ impl Engine for C06 {
             Phase::new("all ordered pairs of corpus programs compiled in one process", json!({"kind":"pairs","thorough":t})),
             Phase::new("free-running confirmation: oal-cli in 6 fresh processes per program (not the deciding step)", json!({"kind":"cli","thorough":t})).workers(8),
         ];
+        v.push(Phase::new(
+            &format!("oal-cli histories: every sequence of <= {} operations (compile to the same target, edit main / the import / the base, delete the target), target compared with a compilation of the same sources in a fresh directory", if t { 5 } else { 4 }),
+            json!({"kind":"cli-history","thorough":t,"depth": if t { 5 } else { 4 }}),
+        ).workers(8));
         if t {
             v.insert(2, Phase::new("all ordered triples of a 40-program sub-corpus compiled in one process", json!({"kind":"triples","thorough":t})));
         }
@@ -266,6 +442,23 @@ impl Engine for C06 {
     }
     fn run_phase(&self, phase: &Phase, sink: &mut Sink) {
         let thorough = phase.param["thorough"].as_bool().unwrap();
+        if phase.param["kind"] == "cli-history" {
+            let depth = phase.param["depth"].as_u64().unwrap() as usize;
+            let mut idx = 0u64;
+            for len in 0..=depth {
+                for k in 0..(HIST_OPS.len() as u64).pow(len as u32) {
+                    if sink.mine(idx) {
+                        if sink.expired() {
+                            return;
+                        }
+                        let ops = hist_ops(len, k);
+                        sink.visit(idx, || json!({"kind":"cli-history","ops": ops}), |s| judge_cli_history(&ops, Some(s)));
+                    }
+                    idx += 1;
+                }
+            }
+            return;
+        }
         let progs = corpus(thorough);
         let texts: Vec<Vec<(String, String)>> = progs.iter().map(|p| print(p).texts).collect();
         match phase.param["kind"].as_str().unwrap() {
@@ -316,7 +509,7 @@ impl Engine for C06 {
                 let step = if thorough { 4 } else { 8 };
                 let n = texts.len();
                 // every step-th program and always the two programs built for this property
-                for (i, t) in texts.iter().enumerate().filter(|(i, _)| i % step == 0 || *i + 2 >= n) {
+                for (i, t) in texts.iter().enumerate().filter(|(i, _)| i % step == 0 || *i + 2 + LARGE >= n) {
                     if sink.expired() {
                         return;
                     }
@@ -347,6 +540,11 @@ impl Engine for C06 {
                 let refs: Vec<&Vec<(String, String)>> = progs.iter().collect();
                 judge_history(&refs, None)
             }
+            Some("cli-history") => {
+                let ops: Vec<String> = case["ops"].as_array().map(|a| a.iter().filter_map(|o| o.as_str().map(|s| s.to_owned())).collect()).unwrap_or_default();
+                let ops: Vec<&'static str> = ops.iter().filter_map(|o| HIST_OPS.iter().copied().find(|h| h == o)).collect();
+                judge_cli_history(&ops, None)
+            }
             Some("cli") => match cli_runs(&texts_from_json(case), 6) {
                 Ok(()) => Outcome::ok("same bytes", None),
                 Err(why) => Outcome::bad("process-dependent", "output differs between fresh processes".into(), why, case.clone()),
@@ -355,11 +553,11 @@ impl Engine for C06 {
         }
     }
     fn rule(&self) -> String {
-        "corpus = fragment programs chosen so that every map of the pipeline holds >= 2 entries (examples, tags, modules, parameters, declarations, references, ranges) plus one program with >= 3 entries everywhere; per program a stateless search over all choice tapes (orders of every hash-map iteration met through the ChoiceMap hook; all n! orders for n <= 4; <= 2 deviations from the canonical order); all ordered pairs (thorough: triples) of corpus programs compiled in one process, last output compared with the stand-alone output; oracle: byte-identical YAML. Non-trivial = a document was produced; distinct = distinct documents".into()
+        "corpus = fragment programs chosen so that every map of the pipeline holds >= 2 entries (examples, tags, modules, parameters, declarations, references, ranges) plus one program with >= 3 entries everywhere; per program a stateless search over all choice tapes (orders of every hash-map iteration met through the ChoiceMap hook; all n! orders for n <= 4; <= 2 deviations from the canonical order); all ordered pairs (thorough: triples) of corpus programs compiled in one process, last output compared with the stand-alone output; one large program (900 / 1500 declarations, then an implicit component) under <= 1 deviation at a spread of its choice points; oal-cli histories over {compile to out.yaml with a base, edit main.oal, edit the imported defs.oal, edit base.yaml, delete the target} of <= 4 (thorough 5) operations followed by a compile, modification times set by a logical clock, the target compared after every compile with the result of compiling the same sources in a fresh directory; oracle: byte-identical YAML. Non-trivial = a document was produced; distinct = distinct documents".into()
     }
     fn assumptions(&self) -> Vec<String> {
         vec![
-            "only hash maps imported through the cfg-switched `use … HashMap` lines of oal-compiler are under the explorer's control; a hash-ordered iteration introduced through a new import is only caught by the free-running multi-process confirmation".into(),
+            "only hash maps imported through the cfg-switched `use … HashMap` lines of oal-compiler and of the parser's memo table (oal-model/src/grammar.rs) are under the explorer's control; a hash-ordered iteration introduced through a new import is only caught by the free-running multi-process confirmation".into(),
             "zero choice points on the compile path means no hash-ordered iteration can reach the output".into(),
         ]
     }
